@@ -103,4 +103,17 @@ def bauthHand (E : Env G) (set : Settings) (kt kct certt certct tt tct : Bytes) 
     | .ok sa => .ok ⟨bauthTStepG sa, bauthCtStepG sb, [m1, m2, m3]⟩
   else .ok ⟨bauthTStepG sa, bauthCtStepG sb, [m1, m2]⟩
 
+/-- the messages B sends (M1, M3, …) / A sends (M2, M4, …) among M1, M2, M3, … -/
+def fromB : List Bytes → List Bytes
+  | [] => []
+  | [a] => [a]
+  | a :: _ :: r => a :: fromB r
+def fromA : List Bytes → List Bytes
+  | [] => []
+  | [_] => []
+  | _ :: b :: r => b :: fromA r
+
+/-- the ideal channel: nothing is altered -/
+def idChan : Nat → Bytes → Bytes := fun _ m => m
+
 end Bee2V.C04
